@@ -908,12 +908,10 @@ impl<'a> Ck<'a> {
                         format!("slot {}: unit {} is {:#06x}, expected the terminating NUL (name length field {})", i, n_units, e.name_units[n_units], f),
                     );
                 }
-                if let Some(p) = e.name_units[..n_units].iter().position(|&u| u == 0) {
-                    self.v.add(
-                        "R9.terminator",
-                        format!("slot {}: NUL at unit {} inside the name (name length field {})", i, p, f),
-                    );
-                }
+                // (a NUL inside the name, before the position the length field gives, is not
+                // judged: C09 counts every name without / \ : ! and of at most 31 units as valid,
+                // the length field - not the first NUL - delimits the name, and C03's statement
+                // has no rule about names.  An earlier version of this rule flagged such names.)
                 if let Some(p) = e.name_units[n_units + 1..].iter().position(|&u| u != 0) {
                     self.v.add(
                         "R9.name-padding",
